@@ -463,7 +463,16 @@ async fn on_commitment_revocation(
     let proxy = plugin.state().lock().unwrap().proxy.clone();
 
     for (tower_id, net_addr, status) in towers {
-        if status.is_reachable() {
+        if plugin
+            .state()
+            .lock()
+            .unwrap()
+            .has_appointment(tower_id, locator)
+        {
+            // The same revocation can be notified more than once (e.g. replayed by CoreLN after a restart). Recording it
+            // twice for the same tower would violate the uniqueness of the database records.
+            log::debug!("{tower_id} already has a record of {locator}. Skipping");
+        } else if status.is_reachable() {
             match http::add_appointment(tower_id, &net_addr, &proxy, &appointment, &signature).await
             {
                 Ok((slots, receipt)) => {
